@@ -52,6 +52,11 @@ ASSUMPTIONS = [
     "`del section[key]` for a key that only names a sub-section may either raise (nothing changes) or delete the "
     "sub-section",
     "a refused create must not leave a property behind (reported under its own key, overlaps C12)",
+    "the bare empty string handed over as a *single* value (prop.values = '', create_property(name, ''), "
+    "extend_values('')) is the library's 'no value' (test_property.py::test_empties asserts that it clears) and is not "
+    "generated; [''] and section[key] = '' are generated and must store one empty text value",
+    "odml_type on a property that currently has no values is an unspecified cell (the setter inspects values[0]): "
+    "a compatible type may be accepted or refused; incompatible types must be refused; odml_type is never reset",
 ]
 
 NAMES = ["a", "b", "k", "ü", "sub", "x y"]
@@ -191,8 +196,6 @@ def dtype_ok(tag, dt):
 
 def cand_class(tag, vals, how):
     """input class of a candidate list against a property of type ``tag`` (for finding keys / coverage)"""
-    if how in ("single", "setitem_single") and vals == [""]:
-        return "empty-text"          # one input class: the bare empty string (a str is a Sequence of length 0)
     tags = [tag_of(e) for e in vals]
     if all(t == tag for t in tags):
         return "same"
@@ -242,7 +245,11 @@ def how_ok(how, vals, kind):
         return False
     if len(vals) > 8:
         return False
-    if how in ("single", "setitem_single"):
+    if how == "single":
+        # the bare empty string is the library's "no value" (nixio/test/test_property.py::test_empties asserts that
+        # `prop.values = ""` clears, create_property(name, "") asks for a non-empty value): not a text value here
+        return len(vals) == 1 and vals != [""]
+    if how == "setitem_single":
         return len(vals) == 1
     if how == "setitem":
         return len(vals) >= (0 if kind == "assign" else 1)
@@ -367,8 +374,7 @@ def plan(model, op):
         tags = {tag_of(e) for e in vals}
         if len(tags) == 1:
             tag = tags.pop()
-            cls = "empty-text" if (how in ("single", "setitem_single") and vals == [""]) else "same"
-            out.update(want="accept", cls=cls, tag=tag, new=[dec(e) for e in vals])
+            out.update(want="accept", cls="same", tag=tag, new=[dec(e) for e in vals])
         else:
             out.update(want="refuse-type", cls=cand_class(majority_tag(vals), vals, how))
         return out
@@ -390,7 +396,10 @@ def plan(model, op):
         attr, val = op["attr"], op["val"]
         if attr == "odml_type":
             if val in ODML_OK[mp.tag]:
-                out.update(want="accept", cls="compatible" + ("" if mp.vals else "/empty-values"), new=val)
+                # the setter tests values[0]; without values it raises IndexError although the docstring speaks of
+                # "the value data type of the property" - unspecified cell: accepted or refused (unchanged)
+                out.update(want="accept" if mp.vals else "lenient",
+                           cls="compatible" + ("" if mp.vals else "/empty-values"), new=val)
             else:
                 out.update(want="refuse", cls="incompatible" + ("" if mp.vals else "/empty-values"))
         elif attr == "unit":
@@ -428,7 +437,7 @@ def plan_typed(out, mp, kind, how, vals):
         else:
             out.update(want="refuse-type", cls="alt-dtype:%s-into-%s" % (tag_of(vals[0]), mp.tag))
         return out
-    if cls == "same" or (cls == "empty-text" and mp.tag == "t"):
+    if cls == "same":
         out.update(want="accept", cls=cls, new=new)
     else:
         out.update(want="refuse-type", cls=cls)
@@ -577,10 +586,13 @@ class Run:
             self.check_section(ms, "state", keys=[op["key"]])
             return
         getattr(self, "do_" + kind)(op, pl, ms, mp)
-        if kind != "del_sec":
-            self.check_section(ms, "state")
-        elif ms.parent is not None:
-            self.check_section(ms.parent, "state")
+        # light check after every op (through the long-lived section handle): structure, the touched key and the
+        # touched property; everything else is compared by probe ops, at every reopen and at the end
+        tgt = ms.parent if kind == "del_sec" else ms
+        name = op.get("name") or (mp.name if mp is not None else None)
+        if kind in ("mk_sec", "del_sec"):
+            name = op.get("name", ms.name)
+        self.check_section(tgt, "state", keys=[name] if name else [], srcs=("cached",), only=name)
 
     def do_mk_sec(self, op, pl, ms, mp):
         sec = self.hsec(ms)
@@ -742,10 +754,9 @@ class Run:
             status, msg = "raised:" + type(exc).__name__, str(exc)[:120]
             exc_is_type = isinstance(exc, TypeError)
         key = "%s/%s/%s%s" % (kind, how, pl["cls"], state)
-        one_key = pl["cls"] == "empty-text"      # one root cause whatever the symptom / property type
 
         def sym(suffix):
-            return key if one_key else key + suffix
+            return key + suffix
         want = pl["want"]
         det = {"property": mp.name, "type": mp.tag, "before": jval(before)[:12], "candidate": vals, "status": status}
         if msg:
@@ -831,7 +842,11 @@ class Run:
         except Exception as exc:  # noqa
             status = "raised:%s %s" % (type(exc).__name__, str(exc)[:100])
         key = "attr/%s/%s" % (attr, pl["cls"])
-        if pl["want"] == "accept":
+        want = pl["want"]
+        if want == "lenient":
+            want = "accept" if status == "ok" else "refuse"
+            self.classes.add("lenient:odml_type/empty-values:" + ("accepted" if status == "ok" else "refused"))
+        if want == "accept":
             if status != "ok":
                 self.v(key + "/refused", {"property": mp.name, "type": mp.tag, "value": val, "status": status})
             else:
@@ -882,7 +897,8 @@ class Run:
                 if st_ == "ok":
                     mp.attrs[a] = g if not isinstance(g, np.floating) else float(g)
 
-    def check_section(self, ms, prefix, keys=None, deep=True):
+    def check_section(self, ms, prefix, keys=None, srcs=("fresh", "cached"), only=None):
+        """``only``: compare the stored state of just that property (None: of every property)"""
         nix = self.nix
         try:
             sec = self.resolve(ms)
@@ -891,8 +907,10 @@ class Run:
             return
         cached = ms.handle
         want_names = [p.name for p in ms.props] + [s.name for s in ms.secs]
+        if cached is None:
+            srcs = ("fresh",)
         for src, h in (("fresh", sec), ("cached", cached)):
-            if h is None or (src == "cached" and h is sec):
+            if src not in srcs:
                 continue
             st_, n = self.safe(lambda: len(h))
             if st_ != "ok" or n != len(ms.props):
@@ -902,13 +920,19 @@ class Run:
                          [(s.name, "Section", s.name) for s in ms.secs]
             if st_ != "ok" or items != want_items:
                 self.v("%s/items/%s" % (prefix, src), {"want": want_names, "got": jval(items), "status": st_})
-            st_, it = self.safe(lambda: [(type(x).__name__, x.name) for x in h])
+            if only is not None:
+                light = True        # per-op check: len, items and the touched key only
+            else:
+                light = False
+            st_, it = ("ok", [(k, nm) for (_, k, nm) in want_items]) if light else \
+                self.safe(lambda: [(type(x).__name__, x.name) for x in h])
             if st_ != "ok" or it != [(k, nm) for (_, k, nm) in want_items]:
                 self.v("%s/iter/%s" % (prefix, src), {"want": want_names, "got": jval(it), "status": st_})
-            st_, pn = self.safe(lambda: [p.name for p in h.props])
+            st_, pn = ("ok", [p.name for p in ms.props]) if light else self.safe(lambda: [p.name for p in h.props])
             if st_ != "ok" or pn != [p.name for p in ms.props]:
                 self.v("%s/props-list/%s" % (prefix, src), {"want": [p.name for p in ms.props], "got": jval(pn)})
-            st_, sn = self.safe(lambda: [(s.name, s.id) for s in h.sections])
+            st_, sn = ("ok", [(s.name, s.id) for s in ms.secs]) if light else \
+                self.safe(lambda: [(s.name, s.id) for s in h.sections])
             if st_ != "ok" or sn != [(s.name, s.id) for s in ms.secs]:
                 self.v("%s/sections-list/%s" % (prefix, src), {"want": [s.name for s in ms.secs], "got": jval(sn)})
             for key in (keys if keys is not None else sorted(set(NAMES) | set(want_names))):
@@ -940,9 +964,9 @@ class Run:
                                                                             "got": jval(val)})
                 elif st_ == "ok":
                     self.v("%s/getitem/missing/%s" % (prefix, src), {"key": key, "got": jval(val)})
-        if not deep:
-            return
         for mp in list(ms.props):
+            if only is not None and mp.name != only:
+                continue
             st_, h = self.safe(lambda: sec.props[mp.name])
             if st_ != "ok":
                 self.v("%s/props-by-name" % prefix, {"property": mp.name, "status": st_})
@@ -955,11 +979,12 @@ class Run:
                     d["property"] = mp.name
                     self.v("%s/values/cached-handle/%s" % (prefix, mp.tag), d)
 
-    def check_all(self, prefix):
+    def check_all(self, prefix, srcs=("fresh", "cached")):
         for ms in list(self.model.order):
-            self.check_section(ms, prefix)
+            self.check_section(ms, prefix, srcs=srcs)
 
-    def reopen(self):
+    def reopen(self, final=False):
+        """close; reopen read-only and compare everything; (unless final) reopen read-write, compare, go on"""
         nix = self.nix
         self.reopens += 1
         self.f.close()
@@ -968,11 +993,13 @@ class Run:
             for mp in ms.props:
                 mp.handle = None
         self.f = nix.File.open(self.path, nix.FileMode.ReadOnly)
-        self.check_all("reopen-ro")
+        self.check_all("reopen")
+        if final:
+            return
         self.f.close()
         self.f = nix.File.open(self.path, nix.FileMode.ReadWrite)
+        self.check_all("reopen")
         self.rebind()
-        self.check_all("reopen-rw")
 
 
 def run_case(case, ctx):
@@ -981,8 +1008,8 @@ def run_case(case, ctx):
     try:
         for op in prog:
             run.step(op)
-        run.check_all("state")
-        run.reopen()
+        run.check_all("state", srcs=("cached",))
+        run.reopen(final=True)
     finally:
         run.close()
     model = run.model
@@ -1042,6 +1069,8 @@ def candidate(draw, tag, how):
     if how in ("single", "setitem_single"):
         t = tag if draw(st.integers(0, 9)) < 6 else draw(st.sampled_from([x for x in TAGS if x != tag]))
         pool = elem(t) if t == tag else st.one_of(elem(t), confusable(t, tag))
+        if how == "single":
+            pool = pool.filter(lambda e: e != "")
         return [draw(pool)], None
     if how in ("ndarray", "ndarray2d"):
         t = tag if (tag != "t" and draw(st.integers(0, 9)) < 6) else draw(
@@ -1112,7 +1141,7 @@ def program(draw, max_ops):
                 tag = draw(st.sampled_from(TAGS))
                 vals, _ = draw(candidate(tag, "list" if how not in ("single", "setitem_single") else "single"))
                 if how in ("single", "setitem_single"):
-                    vals = [draw(elem(tag))]
+                    vals = [draw(elem(tag).filter(lambda e: how != "single" or e != ""))]
                 op["vals"] = vals
         elif kind in ("assign", "extend", "clear", "set_attr", "del_prop"):
             if not ms.props:
@@ -1177,20 +1206,17 @@ def grid_mixed():
                 for k in range(n):
                     vals = list(BASE[tag][:n])
                     vals[k] = oddval
-                    for how in ("list", "tuple", "npscalars"):
-                        mk = {"op": "mk_prop", "sec": 0, "name": "k", "how": "list", "vals": BASE[tag][:3]}
-                        yield {"part": "grid-mixed", "prog": [
-                            mk, {"op": "assign", "sec": 0, "prop": 0, "how": how, "vals": vals, "via": "cached"},
-                            {"op": "extend", "sec": 0, "prop": 0, "how": how, "vals": vals, "via": "name"}]}
-                        yield {"part": "grid-mixed", "prog": [
-                            {"op": "mk_prop", "sec": 0, "name": "k", "how": how, "vals": vals}]}
+                    prog = [{"op": "mk_prop", "sec": 0, "name": "k", "how": "list", "vals": BASE[tag][:3]}]
+                    for how, via in (("list", "cached"), ("tuple", "name"), ("npscalars", "index")):
+                        prog.append({"op": "assign", "sec": 0, "prop": 0, "how": how, "vals": vals, "via": via})
+                        prog.append({"op": "extend", "sec": 0, "prop": 0, "how": how, "vals": vals, "via": via})
+                    prog += [{"op": "mk_prop", "sec": 0, "name": "k", "how": "setitem", "vals": vals},
+                             {"op": "clear", "sec": 0, "prop": 0, "how": "list", "via": "name"},
+                             {"op": "extend", "sec": 0, "prop": 0, "how": "list", "vals": vals, "via": "id"}]
+                    yield {"part": "grid-mixed", "prog": prog}
                     yield {"part": "grid-mixed", "prog": [
-                        {"op": "mk_prop", "sec": 0, "name": "k", "how": "list", "vals": BASE[tag][:3]},
-                        {"op": "mk_prop", "sec": 0, "name": "k", "how": "setitem", "vals": vals},
-                        {"op": "clear", "sec": 0, "prop": 0, "how": "list", "via": "name"},
-                        {"op": "extend", "sec": 0, "prop": 0, "how": "list", "vals": vals, "via": "id"}]}
-                    yield {"part": "grid-mixed", "prog": [
-                        {"op": "mk_prop", "sec": 0, "name": "k", "how": "setitem", "vals": vals}]}
+                        {"op": "mk_prop", "sec": 0, "name": nm, "how": how, "vals": vals}
+                        for nm, how in (("a", "list"), ("b", "tuple"), ("k", "npscalars"), ("ü", "setitem"))]}
 
 
 def grid_whole():
@@ -1202,6 +1228,8 @@ def grid_whole():
                 vals = BASE[tag][:n]
                 if how in ("single", "setitem_single"):
                     for v in BASE[tag]:
+                        if how == "single" and v == "":
+                            continue
                         yield {"part": "grid-roundtrip", "prog": [
                             {"op": "mk_prop", "sec": 0, "name": "a", "how": how, "vals": [v]},
                             {"op": "mk_prop", "sec": 0, "name": "b", "how": "dtype", "t": tag},
